@@ -115,6 +115,7 @@ type Exec struct {
 	stubsHit   map[string]int
 	mapCounter int64
 	nAssertQ   int
+	nAssertConcTrue, nAssertConcFalse int
 	nAssertUnsat int
 	nAssertSat int
 	nUnknown   int
